@@ -101,7 +101,7 @@ theorem mem_dijkstraDist {p : Nat × Int} (hp : p ∈ dijkstraDist g S) :
   exact ⟨e, he, rfl, rfl⟩
 
 theorem distances_length (g : WGraph) (S : List Nat) : (distances g S).length = g.n := by
-  unfold distances
+  unfold distances distancesOf
   rw [foldl_set_length (fun it : Nat × Int => it.1) (fun it => some it.2)]
   simp
 
@@ -115,12 +115,12 @@ theorem distances_of_item (h : Hyp g S) {p : Nat × Int} (hp : p ∈ dijkstraDis
     obtain ⟨_, ⟨st', inv, _⟩, _⟩ := entries_spec h (tag := fun _ => none) tagOK_none
     have := dOf_some_lt (inv.final e he)
     rw [inv.len, hev] at this; exact this
-  unfold distances
+  unfold distances distancesOf
   exact foldl_set_mem (fun it : Nat × Int => it.1) (fun it => some it.2) _ _ p hnd hp (by simpa using hlt)
 
 theorem distances_of_not_item {v : Nat} (hv : v < g.n) (hno : v ∉ (dijkstraDist g S).map (·.1)) :
     (distances g S)[v]? = some none := by
-  unfold distances
+  unfold distances distancesOf
   rw [foldl_set_not_mem (fun it : Nat × Int => it.1) (fun it => some it.2) _ _ v hno]
   simp [hv]
 
